@@ -71,6 +71,19 @@ CHECKS = {
              'pages survive; no power loss); interception of elfi.store.open and NpyArray.__setitem__ (a history with no '
              'logged raw operation aborts the check).',
         design_ref='4 C06'),
+    'C14': dict(
+        level='model_checking',
+        technique='explicit-state BFS over model edit histories (add/become/remove/copy/save+load/edits on a copy) on real '
+                  'ElfiModel objects with canonical-state dedup and a lock-step dict-graph reference model; invariants in '
+                  'every state',
+        text='Every edit history up to depth 3 (4 thorough) from three seed models is rebuilt on the real API; nodes, '
+             'classes, operations, positional/named parents, private constants, observed data and parameter_names must '
+             'agree with the reference after every step; acyclicity, no dangling edges, no orphan private constants, '
+             'observed keys within nodes hold in every state; copies and loaded models generate the same seeded outputs; '
+             'the original is structurally unchanged by every operation applied to a copy.',
+        note='Trusted: the reference model as the reading of the statement; become() explored only for childless '
+             'replacement nodes (documented use).',
+        design_ref='4 C14'),
     'C15': dict(
         level='model_checking',
         technique='explicit-state BFS to closure over the real get_sub_seed cache states (all index requests in every '
